@@ -20,6 +20,7 @@ EXPLANATION = (
     "then updates (one E-step, one M-step, in that order) and run() iterates step()."
     " Added after seed round 6: LF4 also requires the normalisation sum to be taken per substitution key."
     " Added after seed round 7: LF6 the mass reserved for explicitly initialised heads is summed over the heads with multiplicity."
+    " Added after seed round 8: LF7 the evidence probability of an example is stored as evaluate_evidence() returned it."
 )
 TECHNIQUE = "static analysis: decision tables of the accumulation loops of the EM update (paired accumulators), summed-set == scaled-set rule"
 LEVEL_TEXT = EXPLANATION
